@@ -160,6 +160,7 @@ class Interp:
         self.P = program
         self.inline = set(inline)
         self.assume_ok = assume_ok       # unwrap/expect on an opaque Result takes the Ok branch only
+        self.lazy_locals = False         # unbound locals evaluate to a symbol of their name (loop-body exploration)
         self.extra_models = models or {}
         self.max_paths = max_paths
         self.prefix = []
@@ -408,7 +409,9 @@ class Interp:
         r = n["res"]
         if r["r"] == "local":
             if r["id"] not in env:
-                raise Cannot("unbound local %s" % r["name"])
+                if not self.lazy_locals:
+                    raise Cannot("unbound local %s" % r["name"])
+                env[r["id"]] = Sym(r["name"], n.get("ty"))
             return env[r["id"]]
         if r["r"] == "def":
             dk = r.get("dk", "")
